@@ -134,7 +134,9 @@ SchedStep(st, fr) ==
          ELSE IF q = <<>> THEN st
          ELSE LET m == Head(q)
                   st1 == [st EXCEPT !.streams[tk.x] = Tail(@)] IN
-              IF m[1] = "N" THEN Push(st1, <<CallN(tk.obs, m[2]), F1("streamstep", k)>>)
+              (* every item taken from the stream is an observation ("I" entry): none may be taken after the subscriber's terminal *)
+              IF m[1] = "N" THEN Push([st1 EXCEPT !.log = IF st.conc THEN @ ELSE Append(@, LogEntry(0, "I", U, st.now))],
+                                      <<CallN(tk.obs, m[2]), F1("streamstep", k)>>)
               ELSE Push(st1, <<Call(tk.obs, m[1], m[2]), F1("taskdone", k)>>)
     [] fr.f = "retain" -> Push(st, <<Acq(fr.n), Rel(fr.n)>>)      \* MultiSubscription::retain(): nothing to drop
     [] fr.f = "sched" ->         \* delay / observe_on: one task per notification; x = delay (-1: none), n = observer node
